@@ -92,6 +92,17 @@ class C12(PropBase):
                   for o, r in (("ann", 7), ("bo", 0), ("", -1))]
             items.append({"variants": [pt, {"k": "list", "a": pt}], "vals": pv, "priv": True})
             items.append(items[-1])
+        if rng.random() < 0.2:
+            # instances of a slots-only class (no annotations, no named constructor parameters) as inputs
+            # of mapping / sequence targets: the second instance must be read like the first
+            world["modules"][0]["decls"].append({"d": "raw", "n": "VwSlots12", "src": (
+                "class VwSlots12:\n    __slots__ = ('x', 'y', '_p')\n    def __init__(self, **kw):\n"
+                "        self.x = kw.get('x', 1)\n        self.y = kw.get('y', 2)\n        self._p = 0\n"
+                "    def __eq__(self, o):\n        return type(o) is type(self) and (o.x, o.y) == (self.x, self.y)\n    __hash__ = None\n")})
+            sv = [({"$obj": f"{mods[0]}.VwSlots12", "f": {"x": a, "y": b}},) * 2 for a, b in ((1, 2), (3, 4), ("5", "6"))]
+            items.append({"variants": [{"k": "dict", "a": [{"k": "str"}, {"k": "int"}]}, {"k": "list", "a": {"k": "int"}}, {"k": "tuple", "a": [{"k": "int"}, {"k": "int"}]}],
+                          "vals": sv, "instances": True})
+            items.append(items[-1])
         retry = None
         if rng.random() < 0.3:
             # a small recursive class of the run's own: inputs that are refused deep inside the recursion,
@@ -146,6 +157,8 @@ class C12(PropBase):
             kind = core.weighted(rng, [(2, "build"), (4, "marshal"), (6, "unmarshal"), (2, "encode"), (2, "decode"), (2, "roundtrip"), (2, "call")])
             if it.get("marshal_heavy"):
                 kind = core.weighted(rng, [(6, "marshal"), (3, "encode"), (2, "unmarshal"), (1, "roundtrip")])
+            if it.get("instances"):
+                kind = "unmarshal"
             if kind == "build":
                 step.update(op="build", kind=rng.choice(["marshaller", "unmarshaller", "codec"]))
                 builds.append(step)
@@ -154,7 +167,7 @@ class C12(PropBase):
                 if rng.random() < 0.1:
                     step["t"] = None
             elif kind == "unmarshal":
-                step.update(op="unmarshal", x=self._input(rng, v, w))
+                step.update(op="unmarshal", x=copy.deepcopy(v) if it.get("instances") else self._input(rng, v, w))
             elif kind == "encode":
                 step.update(op="encode", v=v, via=rng.choice(["top", "codec", "compose"]), peer=rng.choice(["default", "default", "json", "tag"]))
                 encodes.append(step)
